@@ -439,7 +439,7 @@ def main(argv):
             if prop not in f['props']:
                 continue
             if f['proved_here']:
-                nob = f.get('ensures', 0) + f.get('invariants', 0) + f.get('builtin_sites', 0) + 1
+                nob = f.get('ensures', 0) + f.get('invariants', 0) + f.get('builtin_sites', 0) + f.get('call_site_preconditions', 0) + 1
                 errs = [e for e in failed_fns.get(f['fn'], []) if prop in err_props(e)]
                 nknown = sum(1 for e in errs if any(finding_matches(kf, prop, e) for kf in known['findings']))
                 nfail = len(errs) - nknown
@@ -505,7 +505,7 @@ def main(argv):
                        'canary': r.get('canary')} for r in results],
             'solver_time_ms': smt_ms,
             'samples': samples,
-            'rule': 'obligations = ensures clauses + loop invariant clauses + built-in no-panic sites (unwrap/index/slice/arithmetic) + 1 termination/call-precondition bundle per function, counted by the weaver on the extracted text of this run',
+            'rule': 'obligations = ensures clauses + loop invariant clauses + built-in no-panic sites (unwrap/index/slice/arithmetic) + call sites of contracted functions that carry a precondition + 1 (termination / remaining call preconditions) per function, counted by the weaver on the extracted text of this run',
             'not_covered': m.get('not_covered', []),
             'bounded': m.get('bounded', []),
         },
